@@ -42,6 +42,27 @@ func drawStar(t *rapid.T, cx, cy int64, rmin, rmax float64, label string) Path {
 	return p
 }
 
+// drawSmooth draws an ellipse-like polygon with 150-420 vertices (every vertex turns by less than
+// 2.5 degrees: the offsetter's "almost straight" shortcuts decide all of its joins), counter-clockwise.
+func drawSmooth(t *rapid.T, cx, cy int64, rmin, rmax float64, label string) Path {
+	n := rapid.IntRange(150, 420).Draw(t, label+"SmoothN")
+	a := rapid.Float64Range(rmin, rmax).Draw(t, label+"SmoothA")
+	b := rapid.Float64Range(rmin, rmax).Draw(t, label+"SmoothB")
+	ph := rapid.Float64Range(0, 1).Draw(t, label+"SmoothPhase")
+	p := make(Path, 0, n)
+	for i := 0; i < n; i++ {
+		ang := (float64(i) + ph) * 2 * math.Pi / float64(n)
+		v := P{X: cx + int64(math.Round(a*math.Cos(ang))), Y: cy + int64(math.Round(b*math.Sin(ang)))}
+		if len(p) == 0 || p[len(p)-1] != v {
+			p = append(p, v)
+		}
+	}
+	for len(p) > 1 && p[len(p)-1] == p[0] {
+		p = p[:len(p)-1]
+	}
+	return p
+}
+
 // drawComb draws a rectilinear comb (a base bar with 1-4 teeth of varying height), counter-
 // clockwise, roughly of radius 2*scale around (cx,cy); simple by construction. Its hole-free
 // core around the centre (the bar) is what a star hole may be placed in.
@@ -119,8 +140,11 @@ func drawSimpleSet(t *rapid.T, scale float64, reversed bool) Paths {
 		cx := int64(k) * int64(6*scale)
 		cy := rapid.Int64Range(-int64(scale), int64(scale)).Draw(t, "cy")
 		outer := drawStar(t, cx, cy, scale, 2*scale, "outer")
-		if rapid.IntRange(0, 2).Draw(t, "comb") == 0 {
+		switch shape := rapid.IntRange(0, 11).Draw(t, "comb"); {
+		case shape <= 3:
 			outer = drawComb(t, cx, cy, scale)
+		case shape == 4 && scale >= 5000:
+			outer = drawSmooth(t, cx, cy, scale, 2*scale, "outer")
 		}
 		if !pathIsSimple(outer) || kit.Area2(outer).Sign() <= 0 {
 			outer = Path{{X: cx - int64(scale), Y: cy - int64(scale)}, {X: cx + int64(scale), Y: cy - int64(scale)}, {X: cx + int64(scale), Y: cy + int64(scale)}, {X: cx - int64(scale), Y: cy + int64(scale)}}
@@ -130,6 +154,9 @@ func drawSimpleSet(t *rapid.T, scale float64, reversed bool) Paths {
 			// a star with few vertices contains the disc of radius rmin*cos(maxgap/2) >= rmin*0.5 (gap <= 2pi/3
 			// holds for n >= 6; verified exactly below in any case)
 			hole := drawStar(t, cx, cy, 0.12*scale, 0.42*scale, "hole")
+			if scale >= 5000 && rapid.IntRange(0, 5).Draw(t, "smoothHole") == 0 {
+				hole = drawSmooth(t, cx, cy, 0.12*scale, 0.42*scale, "hole")
+			}
 			ok := pathIsSimple(hole) && kit.Area2(hole).Sign() > 0 && pathsDisjointBoundaries(hole, outer)
 			if ok {
 				for _, v := range hole {
@@ -258,6 +285,13 @@ func judgeC05(c *C05Case, cx *Ctx) *Violation {
 		sign = -1
 	}
 	label := []string{"join:" + joinName(c.Join), boolLabel("reversed", c.Reversed), boolLabel("object", c.UseObject), boolLabel("two-groups", len(c.Groups) > 1)}
+	smooth := false
+	for _, g := range c.Groups {
+		for _, p := range g {
+			smooth = smooth || len(p) >= 140
+		}
+	}
+	label = append(label, boolLabel("smooth-path(>=140 vertices)", smooth))
 
 	if ad < 0.5 {
 		// the input paths apart from repeated points, path by path
